@@ -62,12 +62,14 @@ func main() {
 		var mon *eng.Monitor
 		if memo != nil {
 			e, mon, _ = eng.Replay(prof.MaxHeight, memo[i])
+		} else if *par > 0 && prof.WFaultPass > 0 {
+			e, mon = eng.RunRandomPar(rng.Fork(), prof, *par)
 		} else {
 			e, mon = eng.RunRandom(rng.Fork(), prof)
 		}
 		findings := mon.Findings
-		if *par > 0 {
-			pe, _, pf := eng.RunTwin(e, *par)
+		if *par > 0 && prof.WFaultPass == 0 {
+			pe, _, pf := eng.RunTwin(e, *par, prof.WFaultPass == 0)
 			findings = pf
 			e = pe
 		}
@@ -235,14 +237,28 @@ func replayFiles(path, claim, include string) int {
 		if mh == 0 {
 			mh = 256
 		}
+		faults := false
+		for i := range doc.Replay.Ops {
+			if doc.Replay.Parallelism > 0 && doc.Replay.Ops[i].K == "ParStabilize" {
+				doc.Replay.Ops[i].K = "Stabilize" // the serial twin; RunTwin turns it back
+			}
+			for _, a := range doc.Replay.Ops[i].Plan {
+				if a.Kind == "AFailErr" || a.Kind == "AFailPanic" {
+					faults = true
+				}
+			}
+		}
 		e, mon, ok := eng.Replay(mh, doc.Replay.Ops)
 		findings := mon.Findings
 		if doc.Replay.Parallelism > 0 {
-			_, _, findings = eng.RunTwin(e, doc.Replay.Parallelism)
+			e, _, findings = eng.RunTwin(e, doc.Replay.Parallelism, !faults)
 		}
 		fmt.Printf("%s: %d operations, well-formed=%v\n", f, len(e.Ops), ok)
 		for j, o := range e.Ops {
 			fmt.Printf("  %2d %-40s %s %v\n", j, o.String(), e.Samples[j].Class, e.Samples[j].Raw)
+			if e.Samples[j].Stack != "" {
+				fmt.Println(e.Samples[j].Stack)
+			}
 		}
 		for _, fd := range findings {
 			fmt.Printf("  FINDING %s:%s %s\n", fd.Prop, fd.Kind, fd.What)
